@@ -223,10 +223,14 @@ def preimage_claim_height(S, D):
     pair = E.en_payload(rv, 'Some', 1, 0, '(bitcoin::Txid, std::option::Option<u32>)', mem, 'spec')
     ho = E.read_path(pair, (('f', 1, 'std::option::Option<u32>'),), mem, True, 'spec')
     h_some = X.zint(ho.d) == 1
-    h_val = E.en_payload(ho, 'Some', 1, 0, 'u32', mem, 'spec').t
-    recorded = z3.And(some, h_some, h_val == h)
-    # live replay: the claim built from this entry is dropped when the block at `h` is disconnected iff the height was recorded
-    b = Binding('preimage_after_conf_reorg_probe', [kind], [None, z3.If(recorded, 0, 1)], line_fn=lambda v: '', which='oracle_tu', panic=panic_of(E), via_solver=True, domain=[(FS, FS)])
+    try:
+        h_val = E.en_payload(ho, 'Some', 1, 0, 'u32', mem, 'spec').t
+        recorded = z3.And(some, h_some, h_val == h)
+    except X.Unsupported:           # the height is a constant None on every path
+        recorded = z3.BoolVal(False)
+    # live replay: the commitment confirms at H, two more blocks, the preimage arrives, the last block is disconnected;
+    # the claim spends an output created at H and must survive - it does iff H (and not 'now') was recorded
+    b = Binding('preimage_after_conf_reorg_probe', [kind], [None, z3.If(recorded, 1, 0)], line_fn=lambda v: '2 1', which='oracle_tu', panic=panic_of(E), via_solver=True, domain=[(FS, FS)])
     S.prove(ids[0], E, [], z3.And(some == (kind == FS), z3.Implies(kind == FS, recorded)),
             'a preimage that arrives after the counterparty commitment confirmed (but before ANTI_REORG_DELAY) yields claims that remember the height of that confirmation: the entry found is a FundingSpendConfirmation and its own height is handed on - so that a reorg of that block retracts the claims',
             [b], bounds='every entry of the queue (any length), all u32 heights')
